@@ -478,6 +478,9 @@ impl State {
         ) = self.inner
         {
             if force || rotation_state.roll_state.rotation_necessary() {
+                // the file must be complete before it gets its final name, because from
+                // then on the cleanup thread can compress or remove it at any time
+                current_write.flush()?;
                 #[cfg(feature = "verif_hooks")]
                 crate::verif_hooks::point("rotate.begin", Some(current_path)).ok();
                 let infix = match rotation_state.naming_state {
